@@ -73,7 +73,7 @@ void bucket_case(Ctx &c) {
         c.count("enum_cases");
         c.maxc("enum_space_per_configuration", kSmallScope.total());
     }
-    auto sc = Mode == 3 && !c.given ? gen_big_case<K>(c, Eps) : Huge && !c.given ? gen_huge_case<K>(c.rng, Eps) : Mode == 2 && !c.given ? [&] { StaticCase<K> e; gen_enum_case<K>(c, e); return e; }() : make_static_case<K>(c, Eps, chunked, 5000, c.thorough() ? (size_t(1) << 17) : (size_t(1) << 16));
+    auto sc = Mode == 5 && !c.given ? gen_giant_case<K>(c, sizeof(K) == 8 ? 11 : 1) : Mode == 3 && !c.given ? gen_big_case<K>(c, Eps) : Huge && !c.given ? gen_huge_case<K>(c.rng, Eps) : Mode == 2 && !c.given ? [&] { StaticCase<K> e; gen_enum_case<K>(c, e); return e; }() : make_static_case<K>(c, Eps, chunked, 5000, c.thorough() ? (size_t(1) << 17) : (size_t(1) << 16));
     if (Mode == 0 && !c.given && !chunked && c.rng.chance(1, 6)) {
         // keys exactly on first + i*step for the bucket step this configuration will use, and spans of the whole type
         using D = UDom<K>;
@@ -109,6 +109,9 @@ void bucket_case(Ctx &c) {
 #define VF_BUCKET_SWEEP(K, E, TOP, BITS, F)                                                                            \
     VF_REGISTER(std::string("bucket/") + ::vf::KT<K>::name() + ",e" #E ",top" #TOP ",bits" #BITS "," #F "#sweep",     \
                 (&::vf::bucket_case<K, E, TOP, BITS, F, 4>), 0.0003)
+#define VF_BUCKET_GIANT(K, E, TOP, BITS, F)                                                                            \
+    VF_REGISTER(std::string("bucket/") + ::vf::KT<K>::name() + ",e" #E ",top" #TOP ",bits" #BITS "," #F "#giant",     \
+                (&::vf::bucket_case<K, E, TOP, BITS, F, 5>), 0.00001)
 #define VF_BUCKET_HUGE(K, E, TOP, BITS, F)                                                                             \
     VF_REGISTER(std::string("bucket/") + ::vf::KT<K>::name() + ",e" #E ",top" #TOP ",bits" #BITS "," #F "#huge",      \
                 (&::vf::bucket_case<K, E, TOP, BITS, F, 1>), 0.0003)
